@@ -179,6 +179,27 @@ pub fn wide_spec(j: u32, pattern: u8, timing: Timing) -> TlSpec {
     TlSpec { kfs, default_easing: 0, timing }
 }
 
+/// "Stepped" timeline: 2^j holds. Hold i shows the value v_i from i/2^j to (i+1)/2^j, written as two
+/// keyframes (start of the hold, end of the hold); consecutive holds meet at one position, where the end of
+/// hold i and the start of hold i+1 are two keyframes with different values for the same properties (an
+/// instantaneous jump). All end-of-hold keyframes are added first, then all start-of-hold keyframes, so the
+/// list is not in position order and the order of the tied keyframes is the insertion order.
+pub fn stepped_spec(j: u32, timing: Timing) -> TlSpec {
+    let n = 1u32 << j;
+    let pos = |i: u32| i as f32 / n as f32;
+    let val = |i: u32| (zig(i), (i as i32 * 37) % 1000 - 500);
+    let mut kfs = vec![];
+    for i in 0..n {
+        let (a, k) = val(i);
+        kfs.push(Kf { pos: pos(i + 1), a: Some(a), k: Some(k), d: None, easing: None });
+    }
+    for i in 0..n {
+        let (a, k) = val(i);
+        kfs.push(Kf { pos: pos(i), a: Some(a), k: Some(k), d: None, easing: if i % 5 == 2 { Some(1) } else { None } });
+    }
+    TlSpec { kfs, default_easing: 0, timing }
+}
+
 /// The two timing configurations of the wide/tall families and, for a position q in [0,1], the exact
 /// times at which the timeline is at q (forward pass; and the reverse pass of the reversing one).
 pub fn wide_timings() -> [Timing; 2] {
@@ -227,6 +248,38 @@ pub fn tall_specs(timing: Timing) -> Vec<TlSpec> {
                 ord += 1;
             }
             v.push(TlSpec { kfs, default_easing: if mask % 2 == 0 { 0 } else { 3 }, timing });
+        }
+    }
+    v
+}
+
+/// "Micro" family: two consecutive keyframes of one property closer together than f32::EPSILON (but at
+/// distinct positions), evaluated at the floats strictly between them. Cycle 1 s, no delay, so the time is
+/// the position; all fractions are dyadic, hence exact.
+pub fn micro_cases() -> Vec<(TlSpec, Vec<f32>)> {
+    let timing = Timing::new(1.0, 0.0, Rep::None, false);
+    let mut v = vec![];
+    let ulps = |x: f32, k: u32| f32::from_bits(x.to_bits() + k);
+    let pairs: Vec<(f32, f32, Vec<f32>)> = vec![
+        (0.0, 5.9604645e-8, vec![1.4901161e-8, 2.9802322e-8, 4.4703484e-8]),           // 0 .. 2^-24
+        (0.0, 9.313226e-10, vec![2.3283064e-10, 4.656613e-10, 6.9849193e-10]),          // 0 .. 2^-30
+        (0.25, ulps(0.25, 4), vec![ulps(0.25, 1), ulps(0.25, 2), ulps(0.25, 3)]),
+        (0.125, ulps(0.125, 8), vec![ulps(0.125, 2), ulps(0.125, 4), ulps(0.125, 6)]),
+        (0.0009765625, ulps(0.0009765625, 16), vec![ulps(0.0009765625, 4), ulps(0.0009765625, 8), ulps(0.0009765625, 12)]),
+        (0.375, ulps(0.375, 2), vec![ulps(0.375, 1)]),
+    ];
+    for (p, q, ts) in pairs {
+        for with_outer in [false, true] {
+            let mut kfs = vec![];
+            if with_outer && p > 0.0 {
+                kfs.push(Kf { pos: 0.0, a: Some(-8.0), k: Some(-80), d: None, easing: None });
+            }
+            kfs.push(Kf { pos: p, a: Some(0.0), k: Some(0), d: Some(0.0), easing: None });
+            kfs.push(Kf { pos: q, a: Some(64.0), k: Some(100), d: Some(-32.0), easing: None });
+            if with_outer {
+                kfs.push(Kf { pos: 1.0, a: Some(16.0), k: Some(7), d: None, easing: None });
+            }
+            v.push((TlSpec { kfs, default_easing: 0, timing }, ts.clone()));
         }
     }
     v
